@@ -156,3 +156,50 @@ func zzH_FRAM() {
 	vAssert(err == io.EOF, "then-eof")
 	vReach("end")
 }
+
+// zzSlowCodec is zzBytesCodec whose Marshal takes time (yields) before it returns.
+type zzSlowCodec struct{ zzBytesCodec }
+
+func (c *zzSlowCodec) Marshal(buf []byte, v interface{}) ([]byte, error) {
+	vYield()
+	return c.zzBytesCodec.Marshal(buf, v)
+}
+
+// zzH_C06x: a request whose body cannot be encoded fails while another call registers and is
+// written in the meantime; a third call follows while the second is still outstanding. The failure
+// must leave no residue in the sequence-number allocation either: the second and third call each get
+// their own reply.
+func zzH_C06x() {
+	m := newZZMsgs(8)
+	m.out = make(chan []byte, 8)
+	conn := NewConnWithCodec(NewClientCodec(&zzSlowCodec{}, nil, m, 64))
+	switch vChoose("mode", 2) {
+	case 1:
+		conn.directIO = true
+	}
+	var ra, rb, rc []byte
+	da, db, dc := make(chan *Call, 2), make(chan *Call, 2), make(chan *Call, 2)
+	var ca *Call
+	vGo("bad-caller", func() { ca = conn.Go("S.Echo", 42, &ra, da) })
+	vYield() // either caller may register first
+	b := []byte{0x62}
+	cb := conn.Go("S.Echo", &b, &rb, db)
+	vQuiesce()
+	c := []byte{0x63}
+	cc := conn.Go("S.Echo", &c, &rc, dc)
+	vQuiesce()
+	vAssert(len(m.writes) == 2, "two-requests-written")
+	for i := 0; i < 2; i++ {
+		f := <-m.out
+		var rq pbRequest
+		rq.Unmarshal(f)
+		m.deliver(zzResponse(rq.Seq, "", zzReplyFor(rq.Args)))
+	}
+	vQuiesce()
+	vAssert(ca != nil && len(da) == 1 && ca.Error != nil, "unencodable-request-fails-with-codec-error")
+	vAssert(len(db) == 1 && cb.Error == nil && vEqBytes(rb, zzReplyFor(b)), "neighbour-call-unaffected")
+	vAssert(len(dc) == 1 && cc.Error == nil && vEqBytes(rc, zzReplyFor(c)), "later-call-unaffected")
+	vAssert(conn.NumCalls() == 0, "no-residue")
+	m.fail(io.EOF)
+	vReach("end")
+}
